@@ -12,6 +12,7 @@ import (
 	"testing/synctest"
 	"time"
 
+	"garrshim/vsched"
 	workerpool "go.linecorp.com/garr/worker-pool"
 )
 
@@ -171,6 +172,9 @@ func TestExpansionChurn(t *testing.T) {
 	mon := bufio.NewWriter(monf)
 	defer func() { mon.Flush(); monf.Close() }()
 	deadline := time.Now().Add(time.Duration(budgetMs) * time.Millisecond)
+	chaos, _ := strconv.Atoi(os.Getenv("POOL_CHAOS")) // see TestStress
+	atomic.StoreInt32(&vsched.ChaosPerMille, int32(chaos))
+	defer atomic.StoreInt32(&vsched.ChaosPerMille, 0)
 	for round := 0; round == 0 || time.Now().Before(deadline); round++ {
 		// mostly one fixed worker and several short-lived expanded ones: the most expiries per submission
 		fixed, limit, life := 1, 4, 20*time.Microsecond
